@@ -110,3 +110,78 @@ fn kind_of(t: &str) -> &str {
 pub fn count_fds() -> usize {
     fd_map().len()
 }
+
+
+/// Descriptor number 0 as a resource under test.  Long-lived services run with stdin closed, and
+/// then channel ends and attachments land on descriptor 0; "valid descriptor = greater than
+/// zero" is a classic slip.  The worker owns a /dev/null placeholder at 0 (`init`); a case may
+/// `free` it right before a receive, so that whatever the library receives or creates next gets
+/// number 0, and `restore`s it at its end - which reports whoever still occupies the number.
+pub mod fd0 {
+    use std::sync::atomic::{AtomicBool, Ordering::SeqCst};
+    static OURS: AtomicBool = AtomicBool::new(false);
+    static FREED: AtomicBool = AtomicBool::new(false);
+
+    fn is_devnull(fd: i32) -> bool {
+        let mut st: libc::stat = unsafe { std::mem::zeroed() };
+        if unsafe { libc::fstat(fd, &mut st) } != 0 {
+            return false;
+        }
+        (st.st_mode & libc::S_IFMT) == libc::S_IFCHR && st.st_rdev == libc::makedev(1, 3)
+    }
+
+    fn put_devnull_at_0() {
+        let n = unsafe { libc::open(b"/dev/null\0".as_ptr() as *const libc::c_char, libc::O_RDWR) };
+        if n > 0 {
+            unsafe { libc::dup2(n, 0) };
+            crate::interpose::raw_close(n);
+        }
+    }
+
+    /// Worker start-up (single-threaded): descriptor 0 becomes a /dev/null of our own.
+    pub fn init() {
+        put_devnull_at_0();
+        OURS.store(is_devnull(0), SeqCst);
+    }
+
+    /// Close the placeholder (no-op when it is not there: not initialised, or freed already).
+    pub fn free() -> bool {
+        if OURS.load(SeqCst) && is_devnull(0) {
+            crate::interpose::raw_close(0);
+            FREED.store(true, SeqCst);
+            true
+        } else {
+            false
+        }
+    }
+
+    /// Put the placeholder back if number 0 is free right now (keeps the "was freed" record).
+    pub fn refill() {
+        if OURS.load(SeqCst) && unsafe { libc::fcntl(0, libc::F_GETFD) } == -1 {
+            put_devnull_at_0();
+        }
+    }
+
+    pub fn was_freed() -> bool {
+        FREED.load(SeqCst)
+    }
+
+    /// Put the placeholder back.  Call only when everything the case created has been dropped:
+    /// `Err(what)` = descriptor 0 is still open and is not the placeholder (it is evicted).
+    pub fn restore() -> Result<(), String> {
+        if !OURS.load(SeqCst) || !FREED.swap(false, SeqCst) {
+            return Ok(());
+        }
+        if is_devnull(0) {
+            return Ok(());
+        }
+        let occupied = unsafe { libc::fcntl(0, libc::F_GETFD) } != -1;
+        let what = std::fs::read_link("/proc/self/fd/0").map(|p| p.display().to_string()).unwrap_or_default();
+        put_devnull_at_0();
+        if occupied {
+            Err(what)
+        } else {
+            Ok(())
+        }
+    }
+}
